@@ -215,7 +215,8 @@ def run(ctx, res):
     # the gate consumes the trigger: the flag is cleared after the wait loop
     trig_key = (CAM_REC, "software_trigger.triggered")
     clr = [(a, h) for a, h in la.accesses(fs)[0] if a.mode == "w" and a.key == trig_key]
-    if clr and all(streamer["lock"] in h for a, h in clr):
+    clears = all(isinstance(a.stmt, dict) and a.stmt.get("k") == "asg" and ir.is_const(a.stmt.get("r"), 0) for a, h in clr)
+    if clr and clears and all(streamer["lock"] in h for a, h in clr):
         res.oblige("R-TRIGGER-GATE", "trigger flag consumed under lock", True,
                    "%d store(s) to software_trigger.triggered in the streamer, all under im.lock" % len(clr), clr[0][0].loc())
     else:
@@ -292,6 +293,50 @@ def run(ctx, res):
                      "%s can copy a frame out on a path on which it has just seen the camera stopped (%s false): the frame the stop sequence "
                      "forces out of the streamer is delivered although no trigger asked for it" % (f_get.name, sorted(flags)[0]))
 
+    # ---- after mutation analysis: the id advances with every generated frame,
+    # a publish wakes the waiting frame call, the frame call reports the id -----
+    for g, a, held in mine:
+        src_ = ir.strip(a.stmt.get("r")) if isinstance(a.stmt, dict) and a.stmt.get("k") == "asg" else None
+        cnt = src_ if isinstance(src_, dict) and src_.get("k") == "var" else None
+        heads_ = [b for b in (outer or []) if any(p not in outer for p in fs.preds().get(b, []))]
+        inst = "streamer: the published id was advanced since the previous publish"
+        if cnt is None:
+            res.fail("R-FRESH", inst, "R-FRESH|streamer|counter", a.loc(), "im.frame_id is not published from the streamer's frame counter")
+        else:
+            def bumps(q, cid=cnt["id"]):
+                return any(lv.get("k") == "var" and lv["id"] == cid and op in ("++", "+=") for lv, op, rhs, w in ir.writes_of(q))
+            ok = all(paths.all_paths_pass(fs, (h, -1), {(a.block, a.idx)}, bumps)[0] for h in heads_ or [fs.entry])
+            if ok:
+                res.oblige("R-FRESH", inst, True, "++%s on every path from the loop head to the publish" % cnt["n"], a.loc())
+            else:
+                res.fail("R-FRESH", inst, "R-FRESH|streamer|advance", a.loc(),
+                         "the streamer can publish im.frame_id without having advanced its frame counter since the last publish: the same id is published twice (the frame call never sees a newer frame)")
+        def wakes(q):
+            return any(c.get("fn") == "condition_variable_notify_all" and "frame_ready" in ir.render(c["args"][0]) for c in ir.calls_in(q))
+        dst = {(h, 0) if fs.blocks[h].stmts else (h, -1) for h in heads_} or "exit"
+        ok, w = paths.all_paths_pass(fs, (a.block, a.idx), dst, wakes)
+        inst = "streamer: a publish is followed by notify(frame_ready)"
+        if ok:
+            res.oblige("R-FRESH", inst, True, "on every path from the publish to the next iteration", a.loc())
+        else:
+            res.fail("R-FRESH", inst, "R-FRESH|streamer|notify", a.loc(),
+                     "the streamer can publish a frame without waking the frame call that waits for it: the caller sleeps although a fresh frame is there")
+    for bid, i, s_ in copies:
+        info = [p for p in f_get.params if p.get("r") == "ImageInfo" and p.get("pd")]
+        def reports_id(q, info=info):
+            for lv, op, rhs, w in ir.writes_of(q):
+                if lv.get("k") == "mem" and lv.get("f") == "hardware_frame_id" and isinstance(ir.strip(rhs), dict) and \
+                        ir.strip(rhs).get("k") == "mem" and obj_key(ir.strip(rhs)) == CUR:
+                    return True
+            return False
+        ok, w = paths.all_paths_pass(f_get, (bid, i), "exit", reports_id)
+        inst = "%s: the copied frame is reported with hardware_frame_id = im.frame_id" % f_get.name
+        if ok:
+            res.oblige("R-FRESH", inst, True, "", f_get.loc(s_))
+        else:
+            res.fail("R-FRESH", inst, "R-FRESH|%s|report-id" % f_get.name, f_get.loc(s_),
+                     "%s can return a copied frame without storing its id in the caller's ImageInfo: ids seen by the caller are not the camera's" % f_get.name)
+
     # ---- R-RESTART -------------------------------------------------------
     res.touched(f_start)
     tcs = paths.calls_to(prog, f_start, {"thread_create"})
@@ -318,4 +363,4 @@ def run(ctx, res):
     res.require_min("R-STOP-WAKES", 3)
     res.require_min("R-TRIGGER-GATE", 2)
     res.require_min("R-RESTART", 2)
-    res.require_min("R-FRESH", 3)
+    res.require_min("R-FRESH", 6)
